@@ -222,13 +222,18 @@ Definition drop_po (po : pout) (l : list pout) : list pout :=
   filter (fun x => negb (q_rid (po_req x) =? q_rid (po_req po))) l.
 
 (* on_substream_open_failure *)
-Definition h_openfail (s : pst) (sid : N) (unsupported : bool) : pst * list out :=
+(* the error of the SubstreamOpenFailure: 0 = some substream error (Rejected(SubstreamOpenError)),
+   1 = multistream-select says the protocol is not supported (UnsupportedProtocol), 2 = an i/o
+   error of kind NotConnected, which RejectReason::from turns into Rejected(ConnectionClosed) *)
+Definition openfail_code (kind : N) : N :=
+  match kind with 1 => E_UNSUPPORTED | 2 => E_CONN_CLOSED | _ => E_SUBSTREAM end.
+Definition h_openfail (s : pst) (sid : N) (unsupported : N) : pst * list out :=
   match find_po sid (pouts s) with
   | None => (s, [])
   | Some po =>
     let rid := q_rid (po_req po) in
     (set_active (set_pouts s (drop_po po (pouts s))) (removeP (po_peer po, rid) (active s)),
-     [OFail rid (if unsupported then E_UNSUPPORTED else E_SUBSTREAM)])
+     [OFail rid (openfail_code unsupported)])
   end.
 
 (* on_substream_event: the verdict of a request future reaches the user only while the request
@@ -499,7 +504,7 @@ Inductive ev :=
 | EClosed (p : N)
 | EDialFail (p : N)
 | EOpened (k gate neg : N)
-| EOpenFail (k : N) (unsupported : bool)
+| EOpenFail (k : N) (unsupported : N)
 | EUnblock (k : N)
 | EBreakW (k : N)
 | ERespond (k len tag : N)
